@@ -5,6 +5,7 @@ import (
 	"encoding/json"
 	"fmt"
 	"runtime/debug"
+	"sort"
 	"strings"
 	"testing"
 	"time"
@@ -368,6 +369,53 @@ func (w *hostileWorld) apply(s Step) {
 			w.safeInject(ipv4.ProtocolNumber, codec.IPv4([]byte(B4), []byte(A4), codec.ProtoUDP, id, 64, false, mf, off, make([]byte, ln)))
 		}
 		w.Probes["random_fragment_sequences"]++
+	case "fragvalid":
+		// a well-formed (or slightly mutated) IPv4 packet arriving as 2-4 fragments: the
+		// transport header may straddle fragments, so it reaches the transport layer in several views
+		proto, b := w.base(r)
+		if r.Chance(0.3) {
+			b = mutate(r, proto, b)
+		}
+		if proto != ipv4.ProtocolNumber || len(b) < 36 || b[0] != 0x45 || int(binary.BigEndian.Uint16(b[2:])) != len(b) || binary.BigEndian.Uint16(b[6:])&0x3fff != 0 {
+			w.safeInject(proto, b)
+			break
+		}
+		payload := b[20:]
+		w.nid++
+		id := 20000 + w.nid
+		var cuts []int
+		for k := r.Range(1, 3); k > 0; k-- {
+			c := 8 * r.Range(1, 5)
+			if r.Chance(0.3) {
+				c = 8 * r.Range(1, (len(payload)-1)/8)
+			}
+			if c < len(payload) {
+				cuts = append(cuts, c)
+			}
+		}
+		cuts = append(cuts, 0, len(payload))
+		sort.Ints(cuts)
+		var frs [][]byte
+		for i := 0; i+1 < len(cuts); i++ {
+			if cuts[i] == cuts[i+1] {
+				continue
+			}
+			frs = append(frs, codec.IPv4(b[12:16], b[16:20], b[9], id, 64, false, cuts[i+1] != len(payload), cuts[i], payload[cuts[i]:cuts[i+1]]))
+		}
+		switch r.Intn(4) {
+		case 0:
+			for i, j := 0, len(frs)-1; i < j; i, j = i+1, j-1 {
+				frs[i], frs[j] = frs[j], frs[i]
+			}
+		case 1:
+			frs = append(frs, frs[r.Intn(len(frs))])
+		}
+		for _, f := range frs {
+			if w.Viol == nil {
+				w.safeInject(ipv4.ProtocolNumber, f)
+			}
+		}
+		w.Probes["transport_packets_in_fragments"]++
 	case "noise":
 		b := make([]byte, r.Intn(120))
 		for i := range b {
@@ -469,7 +517,7 @@ func (w *hostileWorld) serve() {
 
 func (w *hostileWorld) next() Step {
 	r := w.Rng
-	switch r.Pick(12, 2, 4, 2, 2, 1) {
+	switch r.Pick(12, 2, 4, 2, 2, 1, 3) {
 	case 0:
 		return Step{Op: "mut", A: r.Intn(1 << 20), B: r.Intn(1 << 20)}
 	case 1:
@@ -480,6 +528,8 @@ func (w *hostileWorld) next() Step {
 		return Step{Op: "fragrand", A: r.Intn(1 << 20), B: r.Intn(1 << 20)}
 	case 4:
 		return Step{Op: "noise", A: r.Intn(1 << 20), B: r.Intn(1 << 20)}
+	case 6:
+		return Step{Op: "fragvalid", A: r.Intn(1 << 20), B: r.Intn(1 << 20)}
 	}
 	return Step{Op: "adv", D: int64(time.Duration([]int{10, 1000, 29000, 31000, 61000}[r.Intn(5)]) * time.Millisecond)}
 }
